@@ -723,7 +723,27 @@ reprocess:
 	return (location);
 }
 
-#define MINI_FORMAT_STR_LEN 20
+#define MINI_FORMAT_STR_LEN 64
+
+/* room is kept for the length modifier, the conversion and the terminator */
+#define MINI_FORMAT_PUSH(_ch_)					\
+do {								\
+	if (fmt_pos < MINI_FORMAT_STR_LEN - 4) {		\
+		fmt[fmt_pos++] = (_ch_);			\
+	}							\
+} while (0)
+
+/* snprintf() returns what it would have written: never let 'location'
+ * (and with it 'str_len - location') leave the caller's buffer */
+#define DESERIALIZE_ADVANCE(_len_)				\
+do {								\
+	if ((_len_) > 0) {					\
+		location += (_len_);				\
+	}							\
+	if (location > str_len - 1) {				\
+		location = str_len - 1;				\
+	}							\
+} while (0)
 
 size_t
 qb_vsnprintf_deserialize(char *string, size_t str_len, const char *buf)
@@ -750,8 +770,12 @@ qb_vsnprintf_deserialize(char *string, size_t str_len, const char *buf)
 		}
 		/* copy from current to the next % */
 		len = p - format;
+		if (len > str_len - 1 - location) {
+			len = str_len - 1 - location;
+		}
 		memcpy(&string[location], format, len);
 		location += len;
+		string[location] = '\0';
 		format = p;
 
 		/* start building up the format for snprintf */
@@ -777,22 +801,31 @@ reprocess:
 		case '7': /* field width, ignore */
 		case '8': /* field width, ignore */
 		case '9': /* field width, ignore */
-			fmt[fmt_pos++] = *format;
+			MINI_FORMAT_PUSH(*format);
 			format++;
 			goto reprocess;
 
 		case '*': {
 			int arg_int;
+			char arg_str[16];
+			int i;
 			memcpy(&arg_int, &buf[data_pos], sizeof(int));
 			data_pos += sizeof(int);
-			fmt_pos += snprintf(&fmt[fmt_pos],
-					   MINI_FORMAT_STR_LEN - fmt_pos,
-					   "%d", arg_int);
+			if (arg_int < 0 && fmt_pos > 1 && fmt[fmt_pos - 1] == '.') {
+				/* a negative precision is taken as if
+				 * the precision were omitted */
+				fmt_pos--;
+			} else {
+				snprintf(arg_str, sizeof(arg_str), "%d", arg_int);
+				for (i = 0; arg_str[i]; i++) {
+					MINI_FORMAT_PUSH(arg_str[i]);
+				}
+			}
 			format++;
 			goto reprocess;
 		}
 		case 'l':
-			fmt[fmt_pos++] = *format;
+			MINI_FORMAT_PUSH(*format);
 			format++;
 			type_long = QB_TRUE;
 			if (*format == 'l') {
@@ -801,7 +834,7 @@ reprocess:
 			}
 			goto reprocess;
 		case 'z':
-			fmt[fmt_pos++] = *format;
+			MINI_FORMAT_PUSH(*format);
 			format++;
 			if (sizeof(size_t) == sizeof(long long)) {
 				type_long = QB_FALSE;
@@ -812,7 +845,7 @@ reprocess:
 			}
 			goto reprocess;
 		case 't':
-			fmt[fmt_pos++] = *format;
+			MINI_FORMAT_PUSH(*format);
 			format++;
 			if (sizeof(ptrdiff_t) == sizeof(long long)) {
 				type_longlong = QB_TRUE;
@@ -821,7 +854,7 @@ reprocess:
 			}
 			goto reprocess;
 		case 'j':
-			fmt[fmt_pos++] = *format;
+			MINI_FORMAT_PUSH(*format);
 			format++;
 			if (sizeof(intmax_t) == sizeof(long long)) {
 				type_longlong = QB_TRUE;
@@ -841,9 +874,10 @@ reprocess:
 				fmt[fmt_pos++] = *format;
 				fmt[fmt_pos++] = '\0';
 				memcpy(&arg_int, &buf[data_pos], sizeof(long int));
-				location += snprintf(&string[location],
-						     str_len - location,
-						     fmt, arg_int);
+				len = snprintf(&string[location],
+					       str_len - location,
+					       fmt, arg_int);
+				DESERIALIZE_ADVANCE(len);
 				data_pos += sizeof(long int);
 				format++;
 				break;
@@ -853,9 +887,10 @@ reprocess:
 				fmt[fmt_pos++] = *format;
 				fmt[fmt_pos++] = '\0';
 				memcpy(&arg_int, &buf[data_pos], sizeof(long long int));
-				location += snprintf(&string[location],
-						     str_len - location,
-						     fmt, arg_int);
+				len = snprintf(&string[location],
+					       str_len - location,
+					       fmt, arg_int);
+				DESERIALIZE_ADVANCE(len);
 				data_pos += sizeof(long long int);
 				format++;
 				break;
@@ -865,9 +900,10 @@ reprocess:
 				fmt[fmt_pos++] = *format;
 				fmt[fmt_pos++] = '\0';
 				memcpy(&arg_int, &buf[data_pos], sizeof(int));
-				location += snprintf(&string[location],
-						     str_len - location,
-						     fmt, arg_int);
+				len = snprintf(&string[location],
+					       str_len - location,
+					       fmt, arg_int);
+				DESERIALIZE_ADVANCE(len);
 				data_pos += sizeof(int);
 				format++;
 				break;
@@ -886,9 +922,10 @@ reprocess:
 			fmt[fmt_pos++] = *format;
 			fmt[fmt_pos++] = '\0';
 			memcpy(&arg_double, &buf[data_pos], sizeof(double));
-			location += snprintf(&string[location],
-					     str_len - location,
-					     fmt, arg_double);
+			len = snprintf(&string[location],
+				       str_len - location,
+				       fmt, arg_double);
+			DESERIALIZE_ADVANCE(len);
 			data_pos += sizeof(double);
 			format++;
 			break;
@@ -900,9 +937,10 @@ reprocess:
 			fmt[fmt_pos++] = *format;
 			fmt[fmt_pos++] = '\0';
 			arg_char = (unsigned char*)&buf[data_pos];
-			location += snprintf(&string[location],
-					     str_len - location,
-					     fmt, *arg_char);
+			len = snprintf(&string[location],
+				       str_len - location,
+				       fmt, *arg_char);
+			DESERIALIZE_ADVANCE(len);
 			data_pos += sizeof(unsigned char);
 			format++;
 			break;
@@ -914,7 +952,7 @@ reprocess:
 			len = snprintf(&string[location],
 				       str_len - location,
 				       fmt, &buf[data_pos]);
-			location += len;
+			DESERIALIZE_ADVANCE(len);
 			/* don't use len as there might be a len modifier */
 			data_pos += strlen(&buf[data_pos]) + 1;
 			format++;
@@ -927,15 +965,19 @@ reprocess:
 			       sizeof(ptrdiff_t));
 			fmt[fmt_pos++] = *format;
 			fmt[fmt_pos++] = '\0';
-			location += snprintf(&string[location],
-					     str_len - location,
-					     fmt, pt);
+			len = snprintf(&string[location],
+				       str_len - location,
+				       fmt, pt);
+			DESERIALIZE_ADVANCE(len);
 			data_pos += sizeof(void*);
 			format++;
 			break;
 			}
 		case '%':
-			string[location++] = '%';
+			if (location < str_len - 1) {
+				string[location++] = '%';
+				string[location] = '\0';
+			}
 			/* the encoder stores a byte for it, too */
 			data_pos += sizeof(char);
 			format++;
